@@ -94,7 +94,7 @@ PROPS = {
         outside=COMMON_OUTSIDE + ["the text printed by the tracing wrappers"],
     ),
     "C04": dict(
-        prefixes=["c03_w", "c03_ms_selfcheck", "c03_rt"],
+        prefixes=["c03_w", "c03_ms_selfcheck", "c03_rt", "c18_io_write", "c18_generic_read"],
         pre=["oracle"],
         level_text="Bounded model checking of every real code writer (src/codes/*.rs, table and non-table variants) on a model bit stream against a specification of the codewords written from the module documentation only (harness/src/spec.rs: per-bit, loop-free): for symbolic value, parameters and bit offset, the number of bits appended equals the definition's length and every appended bit (nondeterministic index) equals the definition's bit, for both endiannesses with the documented little-endian conventions. Writer word sizes follow from C01 (every real writer refines the same canonical stream).",
         assumptions=[
@@ -106,12 +106,12 @@ PROPS = {
     ),
     "C05": dict(
         pre=["scope"],
-        prefixes=["c05_", "c03_w_gamma_tab", "c03_w_delta_tab", "c03_w_zeta3_tab", "c03_w_gamma_be", "c03_w_delta_be", "c03_w_zeta3_be", "c03_w_gamma_le", "c03_w_delta_le", "c03_w_zeta3_le"],
+        prefixes=["c05_", "c03_w_gamma_tab", "c03_w_delta_tab", "c03_w_zeta3_tab", "c03_w_gamma_be", "c03_w_delta_be", "c03_w_zeta3_be", "c03_w_gamma_le", "c03_w_delta_le", "c03_w_zeta3_le", "c09_gamma_tab", "c09_delta_tab", "c09_zeta3_tab", "c09_ub_gamma_tab", "c09_ub_delta_tab", "c09_ub_zeta3_tab"],
         level_text="Bounded model checking of table-driven vs bit-by-bit coding. Decoding: from an arbitrary representation-valid state of the REAL readers (BufBitReader over u16/u32/u64 words, BitReader) over a symbolic stream - hence every look-ahead pattern of every table at every buffer fill - the table variant and the plain variant return the same value and leave the same position and a valid state (gamma; delta in all table combinations; zeta3). Encoding/length tables: both variants are compared with the same definition for every value (C03/C04 harnesses *_tab_*), and the parameterless defaults of the real readers/writers agree with the plain variants.",
         assumptions=[
             "the plain decoder's precondition: the stream holds a codeword (first one bit within 20 / 6 / 11 bits for gamma / delta / zeta3, so that every field read is <= 64 bits)",
             "readers whose construction emits the insufficient-look-ahead diagnostic are excluded by the property; whether BufBitReader<u8> emits it per table is determined natively on the tree under test (bin diag_dump captures the stderr of constructing one) and the u8 harnesses c05_dec_*_u8_* check the reader exactly for the tables for which it does not",
-            "strict-tail behaviour (fewer bits than the index width before the end): see C09 harnesses *_tab_*",
+            "strict-tail behaviour (fewer bits than the index width before the end of a strict stream): the C09 harnesses c09_*_tab_* / c09_ub_*_tab_* are part of this check (table-driven read from any state on data truncated after any number of words: value and position of the definition, or an error with nothing consumed)",
         ],
         outside=COMMON_OUTSIDE + ["the text of the diagnostic (checked natively)"],
     ),
@@ -164,14 +164,15 @@ PROPS = {
     "C16": dict(
         prefixes=["c16_"],
         pre=["display"],
-        heavy="c16_parse",
-        level_text="Bounded model checking of Codes::{from_code_const,to_code_const,eq,from_str}: all identifiers 0..=50 and out-of-range ones; code->identifier->code gives identical codewords on a model stream with symbolic values; == holds exactly inside the classes of codes with identical codewords (symbolic variants and parameters over the full usize range) and the members of each class have identical codewords; FromStr parses the literal names, Name(k) with symbolic one/two-digit k, and rejects malformed texts. Display is executed natively only (see outside_claim).",
+        heavy=r"c16_parse\d*_(zeta|pi|golomb|exp_golomb|rice)$",
+        level_text="Bounded model checking of Codes::{from_code_const,to_code_const,eq,from_str}: all identifiers 0..=50 and out-of-range ones; code->identifier->code gives identical codewords on a model stream with symbolic values; == holds exactly inside the classes of codes with identical codewords (symbolic variants and parameters over the full usize range) and the members of each class have identical codewords; FromStr parses the literal names, Name(k) for a grid of concrete k up to usize::MAX (quick) and for symbolic k of 1, 2, 3, 5 digits (every family) and 10 and 19 digits (Zeta) (thorough), and rejects malformed texts. Display is executed natively only (see outside_claim).",
         assumptions=[
             "Display is prefix + decimal(k) + suffix uniformly in k (core's integer formatting trusted); the printed templates are obtained by running the real Display natively on the current tree",
-            "parameters 0..=12 concrete for identifier round trips; parse: concrete parameters 0, 7, 64, 255, 256, 300, 65536, 2^32 (quick: a subset; text built from the Display template), one- and two-digit parameters symbolic (thorough tier: from_str costs ~10 min / 7 GB per harness; three symbolic digits exceed 30 GB)",
+            "parameters 0..=12 concrete for identifier round trips; parse: concrete parameters 0, 7, 64, 255, 256, 300, 65536, 2^32, usize::MAX for every family (quick; text built from the Display template); symbolic decimal parameters of 1, 2, 3, 5 digits per family and of 10 and 19 digits for Zeta (thorough: 6..31 min and 7..10 GB per harness)",
+            "core::slice::memchr::memchr (word-at-a-time search behind align_offset, which symbolic execution cannot resolve: a concrete 16-byte text ran > 600 s / 10 GB) is replaced by its definition, a linear search, in the FromStr harnesses; native replays run the real one",
             "anyhow / CodeError values are forgotten, message formatting stubbed",
         ],
-        outside=COMMON_OUTSIDE + ["symbolic execution of core::fmt (Display)", "symbolic parameters with three or more digits on the parse side (a concrete grid is checked instead); usize::MAX only in the thorough tier"],
+        outside=COMMON_OUTSIDE + ["symbolic execution of core::fmt (Display)", "symbolic parameters with 4, 6..9, 11..18 or 20 digits on the parse side (the concrete grid and the neighbouring digit counts stand in for them); 20-digit texts that overflow usize"],
     ),
     "C19": dict(
         prefixes=["c19_", "c01_write_bits", "c01_write_unary", "c03_w_", "c08_copy", "c12_write"],
